@@ -82,8 +82,13 @@ def check(item, tier):
         mdp = build.SpecMDP(spec, SLAB[li], ALAB[li])
         sl, al = mdp.sl, mdp.al
         if len(mdp.state_list) != spec.n:
-            r.count('skipped_unreachable_states')
-            return r
+            # states the initial distribution never reaches: still a finite MDP once the state list is given explicitly
+            mdp = build.SpecMDP(spec, SLAB[li], ALAB[li], explicit_lists=True)
+            sl, al = mdp.sl, mdp.al
+            r.count('explicit_state_list_with_unreachable_states')
+            if len(mdp.state_list) != spec.n:
+                r.count('skipped_unreachable_states')
+                return r
         rmax = float(np.max(mdp.reward_matrix))
         opt = F(rmax).limit_denominator(1000) / (1 - spec.gamma)
         acts = spec.acts[0]
@@ -200,8 +205,15 @@ def check(item, tier):
                     anyknown[0] |= j[1] > 0
                     fps[tuple(e.devs())] = (j[0], repr(sorted((repr(k), sorted((repr(x), float(v)) for x, v in row.items()))
                                                               for k, row in out.q_values.items())))
-            with patched_random(ex):
-                ex.explore(body, on_exec)
+            try:
+                with patched_random(ex):
+                    ex.explore(body, on_exec)
+            except (IndexError, KeyError, ValueError, AssertionError, TypeError, ZeroDivisionError) as e:
+                import traceback
+                if 'msdm/algorithms/rmax.py' not in ''.join(traceback.format_tb(e.__traceback__)[-2:]):
+                    raise
+                r.violation('rmax_exception', dict(ctx, error=repr(e)[:300], schedule=ex.devs()), item)
+                continue
             r.count('states', ex.states)
             r.count('transitions', ex.transitions)
             if ex.capped:
